@@ -234,6 +234,14 @@ fn line_gen(e: &mut Ent) -> String {
                 format!("cmd:STOP"),
                 format!("u8:{:x}:{:x} ", a, v),
                 format!("ü8:{:x}:{:x}", a, v),
+                // what a client that ends its lines with CR LF sends: a lone CR, commands with a CR at either end
+                format!("\r"),
+                format!("\r\r"),
+                format!("u8:{:x}:{:x}\r", a, v),
+                format!("\ru8:{:x}:{:x}", a, v),
+                format!("cmd:stop\r"),
+                format!(" "),
+                format!("\t"),
             ];
             variants[e.below(variants.len() as u32) as usize].clone()
         }
